@@ -226,6 +226,10 @@ func (j JSONNode) NodeList(field string) ([]Node, error) {
 	if err != nil {
 		return nil, err
 	}
+	if l == nil {
+		// A nil list of nodes is marshaled as null
+		return nil, nil
+	}
 	list, ok := l.([]interface{})
 	if !ok {
 		return nil, fmt.Errorf("field %s is not a list of values but is %T", field, l)
